@@ -11,7 +11,7 @@ EXPLANATION = ('For each analysis the solver picks the kind of node X (all 22 Ty
 
 SPEC = {
     'has_float': dict(atype="HasFloat<'_>", new='HasFloat { ctx: &ctx, has_float: HashSet::default(), dependencies: HashMap::default() }', consider='HasFloat::consider_edge', node='ItemId', height=1,
-                      acc='fn get(a: &HasFloat, i: usize) -> u8 { a.has_float.present[i] as u8 }\n    fn set(a: &mut HasFloat, i: usize, v: u8) { a.has_float.present[i] = v != 0; }', f4=True),
+                      acc='fn get(a: &HasFloat, i: usize) -> u8 { a.has_float.present[i] as u8 }\n    fn set(a: &mut HasFloat, i: usize, v: u8) { a.has_float.present[i] = v != 0; }', f4=True, check='// (D) completeness of the documented rule for composites (only (B)/(C) would accept a rule that simply never looks): a non-opaque composite with a base or member that contains a float contains a float\n        if opaque_mode != 2 { if let ItemKind::Type(ty) = &ctx.items[X].kind { if let TypeKind::Comp(info) = &ty.kind { if !ctx.items[X].fl.opaque {\n            let f = |k: usize| (k == 1 && v1 == 1) || (k == 2 && v2 == 1);\n            let mut any = false;\n            for b in info.base_members().iter() { if f((b.ty.0).0) { any = true; } }\n            for fl in info.fields().iter() { match fl { Field::DataMember(d) => { if f((d.ty().0).0) { any = true; } } Field::Bitfields(u) => { for bf in u.bitfields().iter() { if f((bf.ty().0).0) { any = true; } } } } }\n            if any { assert!(ax == 1, "a composite with a base or member that contains a float is not recorded as containing one (it can then derive Eq / Ord)"); }\n            kani::cover!(any, "composite with a float-carrying base or member");\n        } } } }'),
     'has_destructor': dict(atype="HasDestructorAnalysis<'_>", new='HasDestructorAnalysis { ctx: &ctx, have_destructor: HashSet::default(), dependencies: HashMap::default() }', consider='HasDestructorAnalysis::consider_edge', node='ItemId', height=1,
                            acc='fn get(a: &HasDestructorAnalysis, i: usize) -> u8 { a.have_destructor.present[i] as u8 }\n    fn set(a: &mut HasDestructorAnalysis, i: usize, v: u8) { a.have_destructor.present[i] = v != 0; }', f4=True),
     'has_type_param_in_array': dict(atype="HasTypeParameterInArray<'_>", new='HasTypeParameterInArray { ctx: &ctx, has_type_parameter_in_array: HashSet::default(), dependencies: HashMap::default() }', consider='HasTypeParameterInArray::consider_edge', node='ItemId', height=1,
@@ -42,7 +42,7 @@ def analysis_kernel(name, tier, known, extra_harness=''):
             pass
     step = open(os.path.join(G, 'harness', 'ir_step.rs')).read()
     step = (step.replace('/*HEIGHT*/', str(sp['height'])).replace('/*ACCESSORS*/', sp['acc']).replace('/*ATYPE*/', sp['atype'].replace("<'_>", ''))
-            .replace('/*NEW*/', sp['new']).replace('/*CONSIDER*/', sp['consider']).replace('/*NODE*/', sp['node']).replace('/*UNW*/', '8').replace('/*EXTRA_ASSUME*/', sp.get('assume', '' if fname == 'derive' else '// these analyses are only ever applied to allowlisted items (initial work list = allowlisted items; re-queues come from the dependency map, which holds allowlisted items only)\n        kani::assume(ctx.allow.present[X]);')))
+            .replace('/*NEW*/', sp['new']).replace('/*CONSIDER*/', sp['consider']).replace('/*NODE*/', sp['node']).replace('/*UNW*/', '8').replace('/*EXTRA_CHECK*/', sp.get('check', '')).replace('/*EXTRA_ASSUME*/', sp.get('assume', '' if fname == 'derive' else '// these analyses are only ever applied to allowlisted items (initial work list = allowlisted items; re-queues come from the dependency map, which holds allowlisted items only)\n        kani::assume(ctx.allow.present[X]);')))
     mods = []
     # analyses that other analyses' files mention by type (derive.rs: HasVtable)
     for dep in (['has_vtable'] if fname == 'derive' else []):
@@ -78,7 +78,7 @@ def analysis_kernel(name, tier, known, extra_harness=''):
                 if fname != 'derive' and kn in ('Vector', 'Pointer'):
                     quick = False
                 hs.append(H(hn, path=P + hn, expect=expect, timeout=900, weight=(3 if fname == 'derive' else (2 if kn == 'Comp' else 1)), tier='quick' if quick else 'thorough',
-                            may_unsat=("the neighbour's fact influences the result", 'Changed returned'),   # kind dependent; reachability is witnessed by the third cover
+                            may_unsat=("the neighbour's fact influences the result", 'Changed returned', 'composite with a float-carrying base or member'),   # kind dependent; reachability is witnessed by the third cover
                             desc='%s, X = TypeKind::%s (child 1 = %s)%s: one-step obligations (B) local/inflationary/truthful/monotone, (C) dependency completeness' % (
                                 name, kn, ['Int', 'Float', 'TypeParam', 'Function'][ch], {0: '', 1: ', X not opaque (opaque X: finding F4 / unrealized region)', 2: ', X opaque (inverted: must keep failing while F4 stands)'}[mode]),
                             sample={'analysis': name, 'X_kind': kn, 'child1': ['Int', 'Float', 'TypeParam', 'Function'][ch], 'pre_state': 'arbitrary', 'opaque': mn}))
